@@ -453,6 +453,62 @@ theorem counts_roundtrip_totals :
     exact Int.natCast_nonneg a
   exact (part2 _ hnn hpos).2.1
 
+/-! ## legality of a returned sample -/
+
+/-- `selected_sample_legal`: for every filter, every set of heralds on distinct modes of the state,
+every post-selection verdict and every sampled state, a state the (repaired) loop appends
+(i) meets every herald, (ii) passes the post-selection, (iii) holds at least `filter` photons on top
+of the photons the heralds expect; and what is appended once the heralded modes are removed has
+(iv) `m − #heralds` modes, (v) exactly the photons outside the heralded modes, hence (vi) at least
+`filter` photons — the documented meaning of `min_detected_photons_filter`, the one strong
+simulation implements; (vii) with `keep_heralds` the state is appended unchanged. -/
+theorem selected_sample_legal (filter : Nat) (heralds : List (Nat × Nat)) (ps : Bool) (st : List Nat)
+    (hnd : (heralds.map (·.1)).Nodup) (hr : ∀ h ∈ heralds, h.1 < st.length)
+    (h : shotOutcome true filter heralds ps st = .sel) :
+    heraldsOk heralds st = true ∧ ps = true ∧
+    filter + heraldPhotons heralds ≤ st.sum ∧
+    (emitted heralds false st).length = st.length - heralds.length ∧
+    (emitted heralds false st).sum = st.sum - heraldPhotons heralds ∧
+    filter ≤ (emitted heralds false st).sum ∧
+    emitted heralds true st = st := by
+  unfold shotOutcome at h
+  by_cases h1 : st.sum < effFilter true filter heralds
+  · simp [h1] at h
+  · simp only [h1, ↓reduceIte] at h
+    by_cases h2 : (heraldsOk heralds st && ps) = true
+    · simp only [Bool.and_eq_true] at h2
+      have h3 : filter + heraldPhotons heralds ≤ st.sum := by
+        simp only [effFilter, ↓reduceIte] at h1; omega
+      obtain ⟨e1, e2⟩ := photonsIn_heralds st heralds hnd hr h2.1
+      have l1 := removeFrom_length_add (heralds.map (·.1)) st 0
+      have l2 := removeFrom_sum_add (heralds.map (·.1)) st 0
+      rw [e2] at l1
+      rw [e1] at l2
+      have hem : (emitted heralds false st).length = st.length - heralds.length ∧
+          (emitted heralds false st).sum = st.sum - heraldPhotons heralds := by
+        cases heralds with
+        | nil => simp [emitted, heraldPhotons]
+        | cons a t =>
+          simp only [emitted, List.isEmpty_cons, Bool.not_false, Bool.and_self, ↓reduceIte, removeModes]
+          constructor <;> omega
+      refine ⟨h2.1, h2.2, h3, hem.1, hem.2, ?_, ?_⟩
+      · rw [hem.2]; omega
+      · simp [emitted]
+    · simp [h2] at h
+
+/-- `sampler_filter_fails_on_old_code`: the code as it was (bare filter compared with the photon
+number of the full state) appended states with fewer than `filter` photons outside the heralded
+modes — witness: filter 1, a herald expecting one photon on mode 1, sampled state `|0,1>` is
+returned as `|0>`.  (Replayed on the real code by corpus/C09/filter-heralds.json.) -/
+theorem sampler_filter_fails_on_old_code :
+    ¬ ∀ (filter : Nat) (heralds : List (Nat × Nat)) (ps : Bool) (st : List Nat),
+      (heralds.map (·.1)).Nodup → (∀ h ∈ heralds, h.1 < st.length) →
+      shotOutcome false filter heralds ps st = .sel → filter ≤ (emitted heralds false st).sum := by
+  intro h
+  have := h 1 [(1, 1)] true [0, 1] (by decide) (by decide) (by decide)
+  revert this
+  decide
+
 /-! ## non-vacuity: the hypotheses of the theorems above are satisfiable and the conclusions are
 about runs that really happen (closed terms evaluated by the kernel) -/
 
@@ -493,6 +549,11 @@ example : repairHigh [0, 1] [0, 9] 2 [0, 0, 0, 1] = some [0, 7] := by decide
 example : ∃ r, repairHigh (keysOf [4, 4]) [4, 4] (sumI [4, 4] - (7 : Nat)) [0, 1] = some r ∧
     sumI r = (7 : Nat) ∧ ∀ c ∈ r, 0 ≤ c :=
   probs_to_sample_count_terminates_fair [4, 4] 7 [0, 1] (by decide) (by decide) (by decide) (by decide)
+-- a selected state under the hypotheses of `selected_sample_legal` (herald expecting a photon)
+example : shotOutcome true 1 [(1, 1)] true [1, 1, 0] = .sel ∧ emitted [(1, 1)] false [1, 1, 0] = [1, 0] := by
+  decide
+example : shotOutcome true 1 [(1, 1)] true [0, 1, 0] = .phys ∧ shotOutcome true 1 [(1, 1)] true [2, 0, 0] = .logic := by
+  decide
 -- conversions
 example : countOf 3 [0, 2, 2, 0, 0] = [3, 0, 2] := by decide
 example : countsToProbs [3, 0, 2] = .ok [some (3 / 5), none, some (2 / 5)] := by decide +kernel
